@@ -29,6 +29,9 @@ pub fn hook_from_callback() {
 
 /// Panics are data here: keep them off stderr.
 pub fn quiet_panics() {
+    if std::env::var_os("FQSIM_LOUD").is_some() {
+        return; // debugging aid: keep the default hook (messages and backtraces on stderr)
+    }
     std::panic::set_hook(Box::new(|_| {}));
 }
 
